@@ -621,7 +621,8 @@ def faults(kind, case, rng):
             c["sheets"][other]["rows"] = [[(0 if x == tgt else x) for x in r] for r in c["sheets"][other]["rows"]]
         mut("sensor name absent from mapping", gone)
         if "sensors sign" in S0:
-            mut("sensors sign:row dropped", lambda c: (c["sheets"]["sensors sign"]["rows"].pop(), c["sheets"]["sensors sign"]["idx"].pop()))
+            if len(S0["sensors sign"]["rows"]) >= 2:  # dropping the only row leaves an EMPTY sheet = an omitted optional sheet: not a fault
+                mut("sensors sign:row dropped", lambda c: (c["sheets"]["sensors sign"]["rows"].pop(), c["sheets"]["sensors sign"]["idx"].pop()))
             mut("sensors sign:-1 column", lambda c: cols(c, "sensors sign", -1))
         if "constraints" in S0:
             mut("constraints: column names an unknown sensor", lambda c: c["sheets"]["constraints"]["cols"].__setitem__(0, "Q_unknown"))
@@ -847,9 +848,14 @@ def run(ctx):
         if case["names"] is None:
             judged = True
         key = None
+        if judged and bool(reason) != bool(flt):
+            # generator and oracle predicate disagree about this table set (e.g. an injected fault that is a no-op):
+            # the oracle does not judge it; the comparison with the model below still runs
+            ctx.not_judged += 1
+            ctx.note("generator/oracle inconsistency, case not judged by the oracle: injected fault %r, oracle predicate says %r" % (flt, reason))
+            judged = False
+            reason = None
         if judged:
-            if bool(reason) != bool(flt):
-                raise AssertionError("harness: injected fault %r but the oracle's predicate says %r" % (flt, reason))
             if reason:
                 if impl[0] == "ok" or impl[1] not in ("ValueError", "ValidationError"):
                     key = "C19:%s:malformed-accepted:%s" % (site, flt.split(":")[0]) if impl[0] == "ok" else defect_key(case, impl[1], "malformed-set-raises")
